@@ -29,10 +29,10 @@ var _ *raft.RaftGroup
 
 // constructors used by the wiring: only their existence matters for the ordering obligations (bodies are not read here)
 //@ func storage/wal.NewBadgerWAL
-//@ props C14 C05
+//@ props C14 C05 C12
 //@ assume
 //@ ensures [wal] ret != nil
-//@ modifies *
+//@ modifies nothing
 //@ func cluster.NewConn
 //@ props C14 C05
 //@ assume
